@@ -7,7 +7,12 @@ package cgnat
 //	pool|comp bs=N ratio=N range=A-B|def max=N pooling=0|1|2 out=ip[/len],... excl=ip,...|- | op op ...
 //
 // pool ops (PoolManager API):   a:k  g:k  r:k  R:k:ip:s:e  I:k:ip:s:e  d
-// comp ops (real Component):    A:sid:k:dpok  S:sid:k:mk:ip:s:e  X:sid:k  P:sid:mk:ip:s:e  D:sid:mk:ip:s:e  d  w:lo:hi
+// comp ops (real Component):    A:sid:k:dpok  S:sid:k:mk:ip:s:e[:dpok]  X:sid:k[:pattern]  P:sid:mk:ip:s:e[:bulk]
+//                               D:sid:mk:ip:s:e  C  d  w:lo:hi
+// Fault dimension of the southbound fake: dpok = outcome of the dataplane add; pattern = one letter per dataplane
+// delete issued by the release (o ok, f failed, O ok but completing later, F failed and completing later; missing
+// letters = o); bulk = 0 ok, 1 per-mapping error, 2 transport error of the bulk reprogram; C fires the delete
+// callbacks that are still pending, newest first.
 //
 // IPv4 addresses are decimal uint32.  Subscriber k is InsideVRF k>>16, InsideIP 10.0.(k>>8&255).(k&255); the
 // component always passes VRF 0, so comp cases use k < 65536.
@@ -42,8 +47,12 @@ func (vf15Bus) Publish(topic string, event events.Event) {}
 
 type vf15DP struct {
 	southbound.CGNATDataplane
-	asyncOK  bool
-	addCalls []string
+	asyncOK    bool
+	addCalls   []string
+	delPattern string
+	delCount   int
+	deferred   []func()
+	bulk       int
 }
 
 func (d *vf15DP) CGNATAddDelSubscriberMappingAsync(poolID, swIfIndex uint32, insideIP net.IP, insideVRFID uint32,
@@ -57,10 +66,33 @@ func (d *vf15DP) CGNATAddDelSubscriberMappingAsync(poolID, swIfIndex uint32, ins
 		}
 		return
 	}
-	callback(nil)
+	ch := byte('o')
+	if d.delCount < len(d.delPattern) {
+		ch = d.delPattern[d.delCount]
+	}
+	d.delCount++
+	switch ch {
+	case 'f':
+		callback(fmt.Errorf("injected dataplane delete failure"))
+	case 'O':
+		d.deferred = append(d.deferred, func() { callback(nil) })
+	case 'F':
+		d.deferred = append(d.deferred, func() { callback(fmt.Errorf("injected late dataplane delete failure")) })
+	default:
+		callback(nil)
+	}
 }
 func (d *vf15DP) CGNATAddSubscriberMappingBulk(poolID uint32, mappings []southbound.CGNATMapping) ([]error, error) {
-	return make([]error, len(mappings)), nil
+	res := make([]error, len(mappings))
+	switch d.bulk {
+	case 1:
+		for i := range res {
+			res[i] = fmt.Errorf("injected per-mapping failure")
+		}
+	case 2:
+		return nil, fmt.Errorf("injected transport failure")
+	}
+	return res, nil
 }
 func (d *vf15DP) CGNATEnableOnSession(poolID, swIfIndex uint32, isEnable bool) error { return nil }
 func (d *vf15DP) CGNATAddDelBypass(prefix net.IPNet, vrfID uint32, isAdd bool) error  { return nil }
@@ -500,6 +532,9 @@ func (e *vf15Env) op(kind string, tok string) string {
 	}
 	e.dp.addCalls = nil
 	e.dp.asyncOK = true
+	e.dp.delPattern = ""
+	e.dp.delCount = 0
+	e.dp.bulk = 0
 	switch a[0] {
 	case "A":
 		e.dp.asyncOK = a[3] == "1"
@@ -508,17 +543,32 @@ func (e *vf15Env) op(kind string, tok string) string {
 	case "S":
 		m := vf15Mapping(n(3), n(4), n(5), n(6), false)
 		m.SessionID = a[1]
+		if len(a) > 7 {
+			e.dp.asyncOK = a[7] == "1"
+		}
 		data, _ := json.Marshal(m)
 		e.store.Put(ctx, opdb.NamespaceHASyncedCGNAT, a[1], data)
 		e.c.handleSessionActivate(e.lifecycle(a[1], n(2), models.SessionStateActive))
 		e.store.Clear(ctx, opdb.NamespaceHASyncedCGNAT)
 		return e.dpResult()
+	case "C":
+		for i := len(e.dp.deferred) - 1; i >= 0; i-- {
+			e.dp.deferred[i]()
+		}
+		e.dp.deferred = nil
+		return "ok"
 	case "X":
+		if len(a) > 3 {
+			e.dp.delPattern = a[3]
+		}
 		e.c.handleSessionRelease(e.lifecycle(a[1], n(2), models.SessionStateReleased))
 		return "ok"
 	case "P", "D":
 		m := vf15Mapping(n(2), n(3), n(4), n(5), false)
 		m.SessionID = a[1]
+		if len(a) > 6 {
+			e.dp.bulk = int(n(6))
+		}
 		data, _ := json.Marshal(m)
 		// restoreFromOpDB sees exactly this one persisted mapping
 		saved := e.store.ns[opdbNamespace]
